@@ -193,6 +193,8 @@ CaseResult run_bucketing(const RunCtx &ctx, TapeReader &t, unsigned size_hint) {
     o.size_hint = size_hint;
     o.xkeys = ctx.x("xkeys");
     o.xthreads = ctx.x("xthreads");
+    o.span_multiple_edge = TLS;
+    o.pow2_span_edge = true;
     std::vector<K> keys = gen_keys<K>(t, o, meta);
     std::ostringstream head;
     head << "BucketingPGMIndex<" << type_name<K>() << "," << Eps << "," << TLS << "," << (int) TLB << "," << type_name<F>() << ">";
